@@ -124,6 +124,12 @@ func Assert(c bool, label string) {
 
 func Tag(k, v string) {}
 
+// AssertStatic asserts a structural fact about the library's SSA (counted by the engine; natively
+// there is nothing to observe): kind "go" = go statements in function `where` starting a function
+// whose name contains `what`; "invoke" = interface method calls named `what` in function `where`
+// ("" = anywhere in the package); "send" = channel sends in `where` to a struct field named `what`.
+func AssertStatic(kind, where, what string, expected int, label string) {}
+
 // Note records informational context for findings (not part of the finding key).
 func Note(k, v string) {}
 
